@@ -282,7 +282,56 @@ def check(ctx, report):
     report.floor('C19.R1', 300, 'classes in the containment graph')
     stateless_parsing(ctx, report)
     linear_scans_in_loops(ctx, report)
+    parser_construction(ctx, report)
     report.floor('C19.R4', 60, 'loop/item obligations')
+
+
+def parser_construction(ctx, report, RULE='C19.R7'):
+    """a parser object is created for every item of every list (each nested parse builds one over the rest of the input), so
+    what its construction does per byte of the buffer is done items x bytes times.  The fields of the parser classes, and their
+    ``__attrs_post_init__``, must not walk over the buffer at interpreter level: no per-element validator
+    (deep_iterable / deep_mapping), no converter or validator written in Python that is handed the buffer, no loop over it -
+    ``converter=bytes`` and ``instance_of`` are single steps"""
+    model = ctx.model
+    report.rule(RULE, 'constructing a parser takes a constant number of interpreter steps: nothing walks over the buffer per byte')
+    base = model.try_cls('ParserBase')
+    if base is None:
+        report.error('%s: ParserBase vanished' % RULE)
+        return
+    n = 0
+    for k in [base] + model.all_subclasses(base):
+        for fld in k.own_fields:
+            n += 1
+            report.count(RULE)
+            for what, node in (('validator', fld.validator_node), ('converter', fld.converter_node)):
+                if node is None:
+                    continue
+                per_element = sorted({x.attr for x in ast.walk(node) if isinstance(x, ast.Attribute) and x.attr in ('deep_iterable', 'deep_mapping')})
+                if per_element:
+                    report.add(RULE, '%s@%s[%s]' % (k.construct, what, fld.name),
+                               'the %s of %s.%s checks the value element by element (%s): for the input buffer that is one interpreter level '
+                               'step per byte for every parser object, i.e. per item of every list - quadratic in the input' % (what, k.name, fld.name, ', '.join(per_element)))
+                for x in ast.walk(node):
+                    if isinstance(x, (ast.Name, ast.Attribute)) and isinstance(getattr(x, 'ctx', None), ast.Load):
+                        r = model.resolve_expr(k.module, x) if isinstance(x, ast.Name) else None
+                        if r is not None and hasattr(r, 'node') and isinstance(getattr(r, 'node', None), (ast.FunctionDef, ast.Lambda)) and not r.module.external and \
+                                any(isinstance(y, (ast.For, ast.While, ast.ListComp, ast.GeneratorExp, ast.SetComp, ast.DictComp)) for y in ast.walk(r.node)):
+                            report.add(RULE, '%s@%s[%s]' % (k.construct, what, fld.name),
+                                       'the %s of %s.%s is the repository function %s, which loops: run for every parser object over the buffer' % (what, k.name, fld.name, r.name))
+        pi = k.methods.get('__attrs_post_init__')
+        if pi is not None:
+            report.count(RULE)
+            for x in ast.walk(pi.node):
+                if isinstance(x, (ast.For, ast.While, ast.ListComp, ast.GeneratorExp, ast.SetComp, ast.DictComp)) and '_parsable' in ast.unparse(x):
+                    report.add(RULE, '%s@post-init' % k.construct, '%s.__attrs_post_init__ walks over the buffer' % k.name)
+        for dec_name, m in k.methods.items():
+            # attrs validator methods (@_parsable.validator)
+            if any(isinstance(d, ast.Attribute) and d.attr == 'validator' and isinstance(d.value, ast.Name) and d.value.id == '_parsable' for d in m.node.decorator_list):
+                report.count(RULE)
+                if any(isinstance(y, (ast.For, ast.While, ast.ListComp, ast.GeneratorExp, ast.SetComp, ast.DictComp)) for y in ast.walk(m.node)):
+                    report.add(RULE, '%s@validator[_parsable]' % k.construct, 'the validator method %s loops over the buffer for every parser object' % m.name)
+    if n < 3:
+        report.error('%s: only %d fields of the parser classes found (anchor moved)' % (RULE, n))
 
 
 def scanner_work(ctx, report, pt, scan):
